@@ -781,11 +781,24 @@ func (d *badgerNodeDB) Prune(version uint64) error {
 			continue
 		}
 
-		// An empty root has no nodes to traverse, only its root node marker needs to be removed.
+		// If the root node marker is already gone, this root has been pruned by an earlier attempt
+		// that was interrupted after flushing the batch but before updating the metadata.
+		rootNodeKey := rootNodeKeyFmt.Encode(&rootHash)
+		switch _, err = tx.Get(rootNodeKey); err {
+		case nil:
+		case badger.ErrKeyNotFound:
+			continue
+		default:
+			return err
+		}
+		// Remove the root node marker first, so an interrupted prune never leaves behind a root
+		// that seems to exist but has already lost some of its nodes.
+		if err = batch.Delete(rootNodeKey); err != nil {
+			return err
+		}
+
+		// An empty root has no nodes to traverse.
 		if h := rootHash.Hash(); h.IsEmpty() {
-			if err = batch.Delete(rootNodeKeyFmt.Encode(&rootHash)); err != nil {
-				return err
-			}
 			continue
 		}
 
@@ -815,10 +828,6 @@ func (d *badgerNodeDB) Prune(version uint64) error {
 			return innerErr
 		}
 		if err != nil {
-			return err
-		}
-
-		if err = batch.Delete(rootNodeKeyFmt.Encode(&rootHash)); err != nil {
 			return err
 		}
 	}
